@@ -604,22 +604,44 @@ func checkBigDump(r *h.Run) {
 			deep = i
 		}
 	}
+	// a medium dump first (below the documented 1 MiB floor of maxmem: every maxmem
+	// value, however small, must be enough), requested after the process was served
+	// while it was small; then the large one
+	SnapshotHandler(httptest.NewRecorder(), httptest.NewRequest("GET", "/debug?augment=0&maxmem=1", nil))
+	checkDumpOfSize(r, deep, 30, func(size int) []int {
+		if size >= 1<<20 {
+			return nil
+		}
+		return []int{1, 4096, size / 2, size + 1, 1 << 20, 0}
+	})
+	checkDumpOfSize(r, deep, 90, func(size int) []int {
+		r.Set("big_dump_bytes", size)
+		if size <= 1<<20 {
+			r.Note("big-dump workload produced only %d bytes; the large-buffer requests are not exercised", size)
+			return nil
+		}
+		return []int{size + size/10, size + 4096, 3 * size, 64 << 20}
+	})
+}
+
+// checkDumpOfSize parks n deep goroutines and requests the page with each maxmem
+// value (0: parameter absent); every one of them is sufficient by construction.
+func checkDumpOfSize(r *h.Run, deep, n int, mems func(size int) []int) {
 	var kinds []int
-	for i := 0; i < 90; i++ {
+	for i := 0; i < n; i++ {
 		kinds = append(kinds, deep)
 	}
 	w := startWorkload(kinds)
 	defer w.stop()
 	size := len(liveDump())
-	r.Set("big_dump_bytes", size)
-	if size <= 1<<20 {
-		r.Note("big-dump workload produced only %d bytes; the large-buffer requests are not exercised", size)
-		return
-	}
-	for _, mem := range []int{size + size/10, size + 4096, 3 * size, 64 << 20} {
-		key := fmt.Sprintf("request GET /debug?augment=0&maxmem=%d on a %d byte dump", mem, size)
+	for _, mem := range mems(size) {
+		q := fmt.Sprintf("/debug?augment=0&maxmem=%d", mem)
+		if mem == 0 {
+			q = "/debug?augment=0"
+		}
+		key := fmt.Sprintf("request GET %s on a dump of %d deep goroutines", q, n)
 		r.Check(func() *h.Viol {
-			req := httptest.NewRequest("GET", fmt.Sprintf("/debug?augment=0&maxmem=%d", mem), nil)
+			req := httptest.NewRequest("GET", q, nil)
 			rec := httptest.NewRecorder()
 			nBefore := runtime.NumGoroutine()
 			SnapshotHandler(rec, req)
@@ -627,7 +649,7 @@ func checkBigDump(r *h.Run) {
 				return &h.Viol{Fingerprint: "C20/request/big-dump:" + fp, Summary: key + ": " + msg, Key: key, Kind: "request", Observed: truncS(rec.Body.String())}
 			}
 			if rec.Code != 200 {
-				return mk(fmt.Sprintf("status-%d", rec.Code), fmt.Sprintf("status %d although maxmem is larger than the dump", rec.Code))
+				return mk(fmt.Sprintf("status-%d", rec.Code), fmt.Sprintf("status %d although maxmem (or its documented 1 MiB floor) is larger than the %d byte dump", rec.Code, size))
 			}
 			sum := 0
 			for _, mm := range reRoutines.FindAllStringSubmatch(rec.Body.String(), -1) {
